@@ -369,12 +369,17 @@ Definition aggregate (op : aggop) (vals : list val) : res val :=
       end
   | AMin => pick_ext true vs
   | AMax => pick_ext false vs
-  | ACount => s <- sort_vals vs ;; Ok (VInt (Z.of_nat (length (dedup_sorted s))))
+  | ACount => match vs with [] => Ok VNull | _ => s <- sort_vals vs ;; Ok (VInt (Z.of_nat (length (dedup_sorted s)))) end
   | AList => match vs with [] => Ok VNull | _ => s <- sort_vals vs ;; Ok (VList s) end
   | ASet => match vs with [] => Ok VNull | _ => s <- sort_vals vs ;; Ok (VList (dedup_sorted s)) end
   | AArgMin => arg_ext true vals
   | AArgMax => arg_ext false vals
   | AAnyValue => match vs with [] => Ok VNull | v :: _ => Ok v end
+  | AListQ =>
+      (* JSON_GROUP_ARRAY: nulls are kept (sorted last), nothing gives [] *)
+      s <- sort_vals vs ;; Ok (VList (s ++ filter is_null vals))
+  | ASetQ => s <- sort_vals vs ;; Ok (VList (dedup_sorted s ++ match filter is_null vals with [] => [] | _ => [VNull] end))
+  | ACountQ => s <- sort_vals vs ;; Ok (VInt (Z.of_nat (length (dedup_sorted s))))
   end.
 
 (* ---------- the evaluator ---------- *)
